@@ -19,6 +19,12 @@ def Rep.out : Rep → OutMsg
   | .gap a b => gapFill a b
   | .msg _ m => resent m
 
+/-- the same with the header of a reply to the ResendRequest being answered: a gap fill carries `l` as tag 369
+    (`none`: option off, or the request's MsgSeqNum unreadable); a resent message keeps the header it was stored with -/
+def Rep.outR (l : Option Int) : Rep → OutMsg
+  | .gap a b => { gapFill a b with last := l }
+  | .msg _ m => resent m
+
 def Rep.lo : Rep → Int
   | .gap a _ => a
   | .msg n _ => n
@@ -44,6 +50,9 @@ def replayReps : Int → Int → List (Int × OutMsg) → List Rep × Int × Int
 def replayPlan (seqNum next : Int) (l : List (Int × OutMsg)) : List OutMsg × Int × Int :=
   ((replayReps seqNum next l).1.map Rep.out, (replayReps seqNum next l).2)
 
+def replayPlanR (l : Option Int) (seqNum next : Int) (lst : List (Int × OutMsg)) : List OutMsg × Int × Int :=
+  ((replayReps seqNum next lst).1.map (Rep.outR l), (replayReps seqNum next lst).2)
+
 /-- the walk plus the closing gap fill -/
 def closeReps (r : List Rep × Int × Int) : List Rep := r.1 ++ closeGap r.2.1 r.2.2
 
@@ -54,6 +63,9 @@ def replyReps (persist : Bool) (st : Store) (b e : Int) : List Rep :=
   else closeReps (replayReps b b (st.range b e))
 
 def replyPlan (persist : Bool) (st : Store) (b e : Int) : List OutMsg := (replyReps persist st b e).map Rep.out
+
+/-- the reply as enqueued: `replyPlan` with tag 369 = `l` on the gap fills (equal to `replyPlan` for `l = none`) -/
+def replyPlanR (l : Option Int) (persist : Bool) (st : Store) (b e : Int) : List OutMsg := (replyReps persist st b e).map (Rep.outR l)
 
 /-- `enqueueAndSend` of each message in turn -/
 def enqAll (s : Sess) (l : List OutMsg) : Sess := l.foldl enqueueAndSend s
